@@ -95,10 +95,14 @@ CLAIMED = {
         text="PARTIAL. TLC checks Grounded, DIncreasing (every rectangle of the lattice, incl. infinite and zero-straddling sides) and UniformMargins for the independent and complete-dependence copulas and for Clayton at theta = 1 with eta in {0, 3/10, 1/2, 1}, d = 2 (9-point lattice incl. +-infinity and 0) and d = 3 (7-point lattice), in exact rational arithmetic; a pinned deviation of the orthant-weight rule (same-sign test) must violate. The real copula objects are evaluated on the same lattices: every value, volume() and margin() result and the theta = 1 conditional distribution must equal the transcription exactly (reduced fractions). For Clayton at other theta x eta, TLC forms all lattice volumes and margins from the table of recorded values (quantised 1e-7): grounded, volumes >= -slack, margins = identity; the 2-d conditional distribution must be non-decreasing from 0 to 1 and be inverted by its stated inverse where it is strictly increasing.",
         note="NOT decided: the inequalities off the lattice / for all theta (a continuum); the mixed-derivative clause (the code returns the mixed partial derivative itself - what its only caller integrates - not that times the product of the arguments; no verdict is given on it). Trusted: TLC, rational / quantise sensors.",
         ref="6 (C11)"),
+    "C09": dict(
+        technique="TLA+ spec Measure.tla (moment integrals of step densities over exact rationals; the truncation wrapper, nested as LevyModel.truncate_levy_measure nests it, and the dispatch on the order transcribed as written) model-checked by TLC over all histories of two nested truncations; queries on real TruncatedLevyMeasure / LevyMeasure objects and on the HEM / Merton / VG / CGMY measures trace-validated by TLC",
+        text="PARTIAL. TLC checks for 4 step densities, every history of <= 2 nested truncation windows over a lattice of end points with +-infinity and 0, orders 0..4 (0..5 thorough): the wrappers as written return the moment of the density restricted to the intersection of the windows (TruncatedIsRestriction, NestingIsIntersection), Additive over adjacent intervals, SignOfMoment, DensityVanishesOutside; the pinned deviation xn(n = 0) = integrate(a, a) (the code as found) must violate. Real TruncatedLevyMeasure wrappers (directly and through LevyModel.truncate_levy_measure, up to three nested) around step densities with exact-fraction moments are queried through integrate / _x / _xx / _xn: every value must equal the specification's exactly; orders 3, 4 reach the base class's quadrature (compared within 1e-4). Thin clauses: for HEM, Merton, VG and CGMY in all five activity branches at seeded parameters, every route on a 13-point lattice of end points (with -inf, 0, +inf), orders 0..4: closed form = scipy quadrature of x^n nu(x) (2e-6 relative), additivity, signs, truncated = restriction, truncated density.",
+        note="NOT decided: parameter values, end points and orders outside the sampled ones - the equality of a special-function antiderivative with an integral over a continuum is judged only at sampled points, with scipy's quadrature as the trusted reference (DESIGN.md section 6). Known finding C09-fallback-halfline (generic quadrature over a half-line can miss a narrow jump law). Five defects repaired by fix: commits (known_findings.json).",
+        ref="6 (C09)"),
 }
 
 NOT_APPLICABLE = {
-    "C09": "closed-form Levy-measure integrals vs the model's own density: an identity of real analysis (special functions vs quadrature) with no state or discrete structure a TLA+ model could decide (DESIGN.md section 6)",
     "C18": "accuracy and mutual consistency of COS / FFT / closed-form pricers: numerical-transform accuracy, explicitly the wrong target for model-based verification (DESIGN.md section 6)",
 }
 
